@@ -68,3 +68,17 @@ package conan
 
 //@ func (*VersionRange).String
 //@   ensures text: result == arg0.original   [C18]
+
+// ---- tilde and caret (C05): at or above the base, and the leading components that the operator pins are the base's
+// (~X pins X; ~X.Y[.Z] pins X.Y; ^X.. with X != 0 pins X; ^0.Y.. with Y != 0 pins 0.Y; ^0.0.. pins all but the last written)
+//@ spec partAt(v *Version, i int) string = i < len(v.parts) ? v.parts[i] : "0"
+//@ func (*VersionRange).tildeMatch
+//@   ensures below-base: version.Compare(constraint) < 0 ==> !result   [C05]
+//@   ensures no-components: version.Compare(constraint) >= 0 && len(constraint.parts) == 0 ==> result   [C05]
+//@   ensures major-pinned: version.Compare(constraint) >= 0 && len(constraint.parts) == 1 ==> result == (partAt(version, 0) == constraint.parts[0])   [C05]
+//@   ensures minor-pinned: version.Compare(constraint) >= 0 && len(constraint.parts) >= 2 ==> result == (partAt(version, 0) == constraint.parts[0] && partAt(version, 1) == constraint.parts[1])   [C05]
+//@ func (*VersionRange).caretMatch
+//@   ensures below-base: version.Compare(constraint) < 0 ==> !result   [C05]
+//@   ensures no-components: version.Compare(constraint) >= 0 && len(constraint.parts) == 0 ==> result   [C05]
+//@   ensures major-pinned: version.Compare(constraint) >= 0 && len(constraint.parts) >= 1 && constraint.parts[0] != "0" ==> result == (partAt(version, 0) == constraint.parts[0])   [C05]
+//@   ensures zero-major: version.Compare(constraint) >= 0 && len(constraint.parts) >= 2 && constraint.parts[0] == "0" && constraint.parts[1] != "0" ==> result == (partAt(version, 0) == "0" && partAt(version, 1) == constraint.parts[1])   [C05]
